@@ -694,8 +694,10 @@ def c07_6(ck, prog):
                 'staged reply would be sent together with the error)', 'TS',
                 breaks='RemoveMatch of an unknown rule is answered with a method return AND MatchRuleNotFound',
                 floor=20)
-    from rules.C18 import handler_rows
+    from rules.C18 import handler_rows, handler_reference
     rows = handler_rows(prog)
+    # AddMatch and RemoveMatch are reachable alike (same object paths, same privileges, one string argument)
+    handler_reference(prog, r, names=('AddMatch', 'RemoveMatch'))
     REPLY = {'bus_driver_send_ack_reply', 'bus_transaction_send_from_driver'}
     memo = {}
     n = 0
